@@ -48,6 +48,16 @@ EXP_CLASS = [('{}.5e-1', '{}.5E-1'), ('{}.5e-1', '{}.5-1'),
              ('{}.5e+1', '{}.5+1'), ('{}.25e0', '{}.25d0')]
 
 
+def attach_monitors():
+    from .. import monitors
+    monitors.attach_contracts()
+
+
+def monitor_counts():
+    from .. import monitors
+    return dict(monitors.COUNTS)
+
+
 def plan(tier):
     out = []
     for src, (_fn, fams) in SOURCES.items():
